@@ -4,7 +4,7 @@ scratch copy.  Any alarm is a false alarm of the machinery.  This complements th
 sub-agents (benign/): those are richer, these are many - every local renamed, every short run of top-level statements of every
 method extracted into a helper method.
 
-usage: auto_refactor.py rename|extract [--files algos|partition|synthetic_obj] [--limit N] [--props C03,C04] [--jobs 16]
+usage: auto_refactor.py rename|extract [--files=algos,partition,synthetic_obj] [--every=K] [--offset=J] [--limit=N] [--props=C03,C04] [--jobs=16]
 
 The transformations are correct by construction:
   rename   one local variable (not a parameter, not used in a nested scope, no global/nonlocal) of one method gets a fresh name
@@ -210,7 +210,8 @@ def main():
             gen = gen_rename if mode == "rename" else gen_extract
             for vid, text in gen(rel, src):
                 variants.append((vid, rel, text, props))
-    variants = variants[::every][:limit]
+    offset = int(opts.get("--offset", "0"))
+    variants = variants[offset::every][:limit]
     print("%d variants, %d checks each" % (len(variants), len(props)), flush=True)
     bad = 0
     with cf.ThreadPoolExecutor(jobs) as ex:
